@@ -7,7 +7,7 @@ from .. import gen
 from ..common import Verdict, digest, rng_for, run_shards, seed, tier
 
 PROP = "C18"
-N = {"quick": 4000, "thorough": 100000}
+N = {"quick": 8000, "thorough": 120000}
 PV = {
     "IntString": ["1", "42", "-7", " 12 ", "1_000", "+5"],
     "FloatString": ["2.5", "1e5", "nan", "inf", ".5", "-0.0", "3"],
